@@ -32,11 +32,54 @@ TABF = "wannierberri/result/tabresult.py"
 FFTF = "wannierberri/fourier/fft.py"
 STAT = "wannierberri/calculators/static.py"
 DYN = "wannierberri/calculators/dynamic.py"
+COV = "wannierberri/formula/covariant.py"
 MUTANTS = [
+    dict(prop="C05", name="reorder: only the second band index permuted", file=SYSR, old="            self._XX_R[key] = val[:, :, new_wann_indices][:, new_wann_indices, :]", new="            self._XX_R[key] = val[:, :, new_wann_indices]"),
+    dict(prop="C05", name="reorder: centres not permuted", file=SYSR, old="        self.wannier_centers_cart = self.wannier_centers_cart[new_wann_indices]\n        for key, val in self._XX_R.items():", new="        for key, val in self._XX_R.items():"),
+    dict(prop="C05", name="rvec.reorder: right shifts keep the old order", file=RVEC, old="        self.shifts_right_red = self.shifts_right_red[order_right]\n        self.clear_cached()", new="        self.clear_cached()"),
+    dict(prop="C05", name="rvec.reorder: inverse permutation for the shifts", file=RVEC, old="        self.shifts_left_red = self.shifts_left_red[order_left]\n        self.shifts_right_red = self.shifts_right_red[order_right]\n        self.clear_cached()", new="        self.shifts_left_red = self.shifts_left_red[np.argsort(order_left)]\n        self.shifts_right_red = self.shifts_right_red[np.argsort(order_right)]\n        self.clear_cached()"),
+    dict(prop="C05", name="reorder: rvec not reordered", file=SYSR, old="        self.rvec.reorder(new_wann_indices)\n        if hasattr(self, 'wannier_names'):", new="        if hasattr(self, 'wannier_names'):"),
+    dict(prop="C05", name="PRESERVING: reorder via np.ix_", file=SYSR, old="            self._XX_R[key] = val[:, :, new_wann_indices][:, new_wann_indices, :]", new="            self._XX_R[key] = val[:, new_wann_indices][:, :, new_wann_indices]", expect="ok"),
+    dict(prop="C27", name="Omega internal: factor -1 instead of -1j", file=COV, old="""            summ += -1j * cached_einsum(
+                "mlc,lnc->mnc",
+                self.D.nl(ik, inn, out)[:, :, alpha_A],
+                self.D.ln(ik, inn, out)[:, :, beta_A])
+
+        if self.external_terms:
+            summ += 0.5 * self.O.nn(ik, inn, out)""", new="""            summ += -1 * cached_einsum(
+                "mlc,lnc->mnc",
+                self.D.nl(ik, inn, out)[:, :, alpha_A],
+                self.D.ln(ik, inn, out)[:, :, beta_A])
+
+        if self.external_terms:
+            summ += 0.5 * self.O.nn(ik, inn, out)"""),
+    dict(prop="C27", name="Omega internal: both factors with alpha (identically zero)", file=COV, old="""                self.D.nl(ik, inn, out)[:, :, alpha_A],
+                self.D.ln(ik, inn, out)[:, :, beta_A])
+
+        if self.external_terms:
+            summ += 0.5 * self.O.nn(ik, inn, out)""", new="""                self.D.nl(ik, inn, out)[:, :, alpha_A],
+                self.D.ln(ik, inn, out)[:, :, alpha_A])
+
+        if self.external_terms:
+            summ += 0.5 * self.O.nn(ik, inn, out)"""),
+    dict(prop="C27", name="Omega internal: uses D.nn-like block (ln with swapped spaces)", file=COV, old="""                self.D.nl(ik, inn, out)[:, :, alpha_A],
+                self.D.ln(ik, inn, out)[:, :, beta_A])
+
+        if self.external_terms:
+            summ += 0.5 * self.O.nn(ik, inn, out)""", new="""                self.D.nl(ik, inn, out)[:, :, alpha_A],
+                self.D.ln(ik, inn, out)[:, :, beta_A].conj())
+
+        if self.external_terms:
+            summ += 0.5 * self.O.nn(ik, inn, out)"""),
+    dict(prop="C27", name="dEig_inv: degenerate pairs keep 1/threshold", file=DK, old="        dEig = 1. / dEig\n        dEig[select] = 0.\n", new="        dEig = 1. / dEig\n"),
+    dict(prop="C27", name="D_H: sign", file=DK, old="        return -self.Xbar('Ham', 1) * self.dEig_inv[:, :, :, None]", new="        return self.Xbar('Ham', 1) * self.dEig_inv[:, :, :, None]"),
+    dict(prop="C27", name="D_H: transposed denominator", file=DK, old="        return -self.Xbar('Ham', 1) * self.dEig_inv[:, :, :, None]", new="        return -self.Xbar('Ham', 1) * self.dEig_inv.swapaxes(1, 2)[:, :, :, None]"),
+    dict(prop="C27", name="AHC: Fermi-surface derivative", file=STAT, old="        self.Formula = frml.Omega\n        self.fder = 0\n        super().__init__(constant_factor=constant_factor, **kwargs)\n\n\nclass AHC_test", new="        self.Formula = frml.Omega\n        self.fder = 1\n        super().__init__(constant_factor=constant_factor, **kwargs)\n\n\nclass AHC_test"),
+    dict(prop="C27", name="factor_ahc: sign", file="wannierberri/factors.py", old="factor_ahc = -(elementary_charge ** 2 / hbar / angstrom)", new="factor_ahc = (elementary_charge ** 2 / hbar / angstrom)"),
     dict(prop="C01", name="WS: iRvec_mod not reduced", file=RVEC, old="        return iRvec, Ndegen, iRvec % self.mp_grid", new="        return iRvec, Ndegen, iRvec"),
     dict(prop="C01", name="WS: degeneracy = number of candidates", file=RVEC, old="            ndeg = len(select)\n", new="            ndeg = len(dist[i])\n"),
     dict(prop="C01", name="WS: only the first nearest replica", file=RVEC, old="            for j in select:\n", new="            for j in select[:1]:\n"),
-    dict(prop="C01", name="remapper: weight assigned not accumulated", file=RVEC, old="                    weights[iRi, ia, ib] += 1. / nd", new="                    weights[iRi, ia, ib] = 1. / nd"),
+    dict(prop="C01", name="PRESERVING: remapper weight assigned not accumulated (each R occurs once per shift)", file=RVEC, old="                    weights[iRi, ia, ib] += 1. / nd", new="                    weights[iRi, ia, ib] = 1. / nd", expect="ok"),
     dict(prop="C01", name="remapper: shift index transposed", file=RVEC, old="                ishift = self.shift_index[ia, ib]\n                for iRi, iRm, nd in zip(self.iRvec_index_list[ishift],\n                                        self.iRvec_mod_list[ishift],\n                                        self.Ndegen_list[ishift]):\n                    remapper", new="                ishift = self.shift_index[ib, ia]\n                for iRi, iRm, nd in zip(self.iRvec_index_list[ishift],\n                                        self.iRvec_mod_list[ishift],\n                                        self.Ndegen_list[ishift]):\n                    remapper"),
     dict(prop="C01", name="q_to_R: normalisation dropped", file=RVEC, old="fftlib=self.fftlib_q2R, destroy=False) / np.prod(self.mp_grid)\n        AA_q_mp = self.remap_XX_from_grid_to_list_R", new="fftlib=self.fftlib_q2R, destroy=False) / np.prod(self.mp_grid[:2])\n        AA_q_mp = self.remap_XX_from_grid_to_list_R"),
     dict(prop="C01", name="q_to_R: inverse transform", file=RVEC, old="        AA_q_mp = execute_fft(AA_q_mp, axes=(0, 1, 2), fftlib=self.fftlib_q2R, destroy=False) / np.prod(self.mp_grid)", new="        AA_q_mp = execute_fft(AA_q_mp, axes=(0, 1, 2), fftlib=self.fftlib_q2R, destroy=False, inverse=True)"),
